@@ -138,7 +138,7 @@ def check(ctx):
             ctx.ob("R1", f"{BP}:{a}", "source form is part of the effective grammar", False, key=f"{a}|missing-action")
             continue
         mod, fn, _ = grammar.action_ast(ctx.repo, g, a)
-        ps = [p for p in dtable.paths(fn) if p.outcome in ("fall", "return")]
+        ps = [p for p in dtable.paths(fn, stores=True) if p.outcome in ("fall", "return")]
         seen_rows = set()
         for p in ps:
             conds = p.cond_texts()
@@ -146,8 +146,10 @@ def check(ctx):
             helpers = set()
             mode = None
             # walk the function body statements on this path is not available; use env: p0 expression
-            env = p.env
-            p0 = env.get("p0")
+            p0 = None
+            for e_ in p.effects:
+                if isinstance(e_, ast.Assign) and unparse(e_.targets[0]) == "p[0]":
+                    p0 = e_.value  # the last store into p[0] on this path (locals substituted)
             if p0 is not None:
                 helpers = _helpers_in(p0)
             # mode: constants assigned to *._cliarg_action that are consistent with the path: take from the
@@ -168,7 +170,7 @@ def check(ctx):
     sc = bp.func("BaseParser._subproc_cliargs")
     found = {}
     for n in ast.walk(sc):
-        if isinstance(n, ast.If) and isinstance(n.test, ast.Compare) and unparse(n.test.left) == "action" and isinstance(const_value(n.test.comparators[0]), str):
+        if isinstance(n, ast.If) and isinstance(n.test, ast.Compare) and isinstance(n.test.left, ast.Name) and isinstance(n.test.ops[0], ast.Eq) and isinstance(const_value(n.test.comparators[0]), str):
             mode = const_value(n.test.comparators[0])
             body = ast.Module(body=n.body, type_ignores=[])
             names = {call_name(c) for c in calls_in(body, local=False)}
@@ -176,7 +178,7 @@ def check(ctx):
                 found[mode] = "call_split_lines"
             elif "ensure_list_from_str_or_list" in names:
                 found[mode] = "ensure_list_from_str_or_list"
-            elif "currlist.elts.append" in names:
+            elif any((nm_ or "").endswith(".elts.append") for nm_ in names):
                 found[mode] = "list-element"
             elif "binop" in names:
                 found[mode] = "concat"
@@ -189,8 +191,9 @@ def check(ctx):
     # macro tail: one constant built from the source slice
     ab = bp.func("BaseParser._append_subproc_bang")
     adefs = df.all_defs(ab)
-    sdef = adefs.get("s", [])
-    ok = len(sdef) == 1 and "self._source_slice" in unparse(sdef[0].value) and any(call_name(c) == "ast.const_str" for c in calls_in(ab))
+    src_names = names_defined_by(ab, lambda v: "self._source_slice" in unparse(v), adefs)
+    consts = [c for c in calls_in(ab) if call_name(c) == "ast.const_str"]
+    ok = len(src_names) == 1 and len(adefs[next(iter(src_names))]) == 1 and len(consts) == 1 and any(unparse(k.value) in src_names for k in consts[0].keywords if k.arg == "s") 
     ctx.ob("R1", f"{BP}:BaseParser._append_subproc_bang", "text after a macro `!` becomes one constant taken from the source slice", ok, key="macro-tail")
 
     # ------------------------------------------------------------------ R2
@@ -253,11 +256,12 @@ def check(ctx):
     ok = len(cls_calls) == 1 and len(cls_calls[0].args) >= 2 and unparse(cls_calls[0].args[1]) == "self.cmd"
     ctx.ob("R4", f"{SP}:SubprocSpec.run", "a callable alias receives self.cmd itself (the same list a binary would get)", ok, key="run|alias-argv")
     rb = ms["_run_binary"]
-    ok = any(isinstance(n, ast.Assign) and unparse(n.targets[0]) == "cmd" and unparse(n.value) == "self.cmd" for n in walk_local(rb)) and any(call_name(c) == "self.cls" and c.args and unparse(c.args[0]) == "cmd" for c in calls_in(rb))
+    argv_names = names_bound_to_text(rb, "self.cmd") | {"self.cmd"}
+    ok = any(call_name(c) == "self.cls" and c.args and unparse(c.args[0]) in argv_names for c in calls_in(rb))
     ctx.ob("R4", f"{SP}:SubprocSpec._run_binary", "a binary is started with self.cmd as argv", ok, key="_run_binary|argv")
     ra = ms["resolve_args_list"]
     # flattening only: every element is appended as is (lists are concatenated), no transformation of strings
-    ok = not any(isinstance(c.func, ast.Attribute) and c.func.attr not in ("append",) for c in calls_in(ra) if isinstance(c.func, ast.Attribute)) and all(call_name(c) in ("isinstance", "len", "resolved_cmd.append") for c in calls_in(ra))
+    ok = not any(isinstance(c.func, ast.Attribute) and c.func.attr not in ("append",) for c in calls_in(ra) if isinstance(c.func, ast.Attribute)) and all(call_name(c) in ("isinstance", "len") or (isinstance(c.func, ast.Attribute) and c.func.attr == "append" and isinstance(c.func.value, ast.Name)) for c in calls_in(ra))
     ctx.ob("R4", f"{SP}:SubprocSpec.resolve_args_list", "weaving the argument lists only flattens (isinstance/len/append)", ok, key="resolve_args_list|shape")
 
     # ------------------------------------------------------------------ R5
@@ -314,7 +318,9 @@ def check(ctx):
                 if isinstance(n, ast.Call) and isinstance(n.func, ast.Attribute) and n.func.attr in ("extend", "append") and isinstance(n.func.value, ast.Name) and any(mentions(a_, tracked) for a_ in n.args) and n.func.value.id not in tracked:
                     tracked.add(n.func.value.id)
                     changed = True
-        alias_vars = {"value", "val"}
+        # the alias being resolved: the value parameter (eval_alias) / what was looked up in the table (get)
+        alias_vars = {param_name(fn, 0)} | names_defined_by(fn, lambda v: isinstance(v, ast.Call) and (call_name(v) or "").startswith("self._raw.")) | {"value", "val"}
+        result_vars = names_bound_to_call(fn, lambda nm_: nm_ == "self.eval_alias")
         n_flow = 0
         for n in walk_local(fn):
             if isinstance(n, ast.Call):
@@ -355,7 +361,7 @@ def check(ctx):
             if r.value is None or (isinstance(r.value, ast.Constant) and r.value.value is None) or unparse(r.value) == "default":
                 continue
             n_flow += 1
-            ctx.ob("R5", site, f"`{short(r, 70)}` carries the user's arguments", mentions(r.value, tracked | {"result"}), key=f"{q}|args-dropped-at-return", where=loc(r))
+            ctx.ob("R5", site, f"`{short(r, 70)}` carries the user's arguments", mentions(r.value, tracked | result_vars), key=f"{q}|args-dropped-at-return", where=loc(r))
         if n_flow < 3:
             raise AnalysisError(f"{site}: only {n_flow} flows of the user's arguments found")
 
